@@ -32,7 +32,8 @@ Definition present (x : fstate) : bool := match x with Absent => false | _ => tr
 Definition fstate_eqb (a b : fstate) : bool :=
   match a, b with
   | Absent, Absent => true | Marker, Marker => true
-  | Partial i, Partial j => Nat.eqb i j | Complete i, Complete j => Nat.eqb i j
+  | Partial _, Partial _ => true       (* which write was torn is not observable on disk *)
+  | Complete i, Complete j => Nat.eqb i j
   | _, _ => false
   end.
 Definition fname_eqb (a b : fname) : bool :=
